@@ -42,6 +42,9 @@ def _grid(tier):
                     if tier == 'quick' and cplx and (i % 2 or ol != orr):
                         continue
                     out.append({'shape': s, 'index': index, 'ortho_l': ol, 'ortho_r': orr, 'cplx': cplx})
+            if i % 4 == 0 or tier != 'quick':            # mixed dtypes per core
+                for mask in ('first', 'last'):
+                    out.append({'shape': s, 'index': index, 'ortho_l': True, 'ortho_r': True, 'cplx': mask})
     return out
 
 
